@@ -236,6 +236,25 @@ enum EFieldsOnly {
     TaskStarted { to_x: i32 },
     Idle,
 }
+// every field serde writes has a key whatever its type (markers, unit, empty arrays, boxes, borrows)
+#[allow(dead_code)]
+#[derive(serde::Serialize)]
+#[serde(rename_all = "camelCase")]
+struct STypes<'a> {
+    plain_field: String,
+    marker_a: std::marker::PhantomData<u8>,
+    marker_b: core::marker::PhantomData<String>,
+    unit_field: (),
+    empty_arr: [u8; 0],
+    boxed_val: Box<String>,
+    cow_val: std::borrow::Cow<'a, str>,
+    str_ref: &'a str,
+    opt_unit: Option<()>,
+    bytes_vec: Vec<u8>,
+    pair_val: (i32, String),
+    #[serde(skip)]
+    skipped_marker: std::marker::PhantomData<u8>,
+}
 /// wire name of a variant: the string itself, or the single key of the externally tagged object
 fn variant_name<T: serde::Serialize>(v: &T) -> String {
     match serde_json::to_value(v).unwrap() {
@@ -243,6 +262,30 @@ fn variant_name<T: serde::Serialize>(v: &T) -> String {
         Value::Object(m) => m.keys().next().unwrap().clone(),
         other => other.to_string(),
     }
+}
+
+/// keys of a serialised struct in field order, for arbitrary values: a tiny serializer would be exact; here the
+/// order is taken from a streaming pass over the JSON text at nesting depth 1
+fn keys_of_any<T: serde::Serialize>(v: &T) -> Vec<String> {
+    let s = serde_json::to_string(v).unwrap();
+    let (mut depth, mut keys, mut i, b) = (0i32, Vec::new(), 0usize, s.as_bytes());
+    let mut expect_key = false;
+    while i < b.len() {
+        match b[i] {
+            b'{' | b'[' => { depth += 1; expect_key = b[i] == b'{' && depth == 1; }
+            b'}' | b']' => depth -= 1,
+            b',' if depth == 1 => expect_key = true,
+            b'"' => {
+                let start = i + 1;
+                i += 1;
+                while b[i] != b'"' { if b[i] == b'\\' { i += 1; } i += 1; }
+                if depth == 1 && expect_key { keys.push(s[start..i].to_string()); expect_key = false; }
+            }
+            _ => {}
+        }
+        i += 1;
+    }
+    keys
 }
 
 fn keys_of<T: serde::Serialize>(v: &T) -> Vec<String> {
@@ -268,6 +311,9 @@ pub fn real_serde(case: &Value) -> Value {
         "deonly": keys_of(&SDeOnly::default()),
         "data": [variant_name(&EData::TaskStarted(1, 2)), variant_name(&EData::Moved { to_x: 1 }),
                  variant_name(&EData::QueueEmpty), variant_name(&EData::Finished(1))],
+        "types": keys_of_any(&STypes { plain_field: String::new(), marker_a: std::marker::PhantomData, marker_b: core::marker::PhantomData,
+            unit_field: (), empty_arr: [], boxed_val: Box::new(String::new()), cow_val: "".into(), str_ref: "", opt_unit: None,
+            bytes_vec: vec![], pair_val: (0, String::new()), skipped_marker: std::marker::PhantomData }),
         "fieldsonly": [variant_name(&EFieldsOnly::TaskStarted { to_x: 1 }), variant_name(&EFieldsOnly::Idle)]},
       "enum": {
         "lowercase": lits_of(ELower::all()), "UPPERCASE": lits_of(EUpper::all()), "PascalCase": lits_of(EPascal::all()),
@@ -277,6 +323,36 @@ pub fn real_serde(case: &Value) -> Value {
         "": lits_of(vec![ENone::Active, ENone::InProgress, ENone::Snake_Case, ENone::lower])}})
 }
 
+/// Subcommand `route`: the ways a configuration reaches the generator from Rust code.
+/// case: {"id", "cwd": dir, "kind": "build" | "lib-tauri", "conf": path}
+///   build     - chdir into cwd and call BuildSystem::generate_at_build_time(), as a build.rs would
+///   lib-tauri - GenerateConfig::from_tauri_config(conf) followed by generate_from_config
+/// The tool may print cargo: lines on stdout; the python side picks the last JSON line.
+pub fn route(case: &Value) -> Value {
+    let back = std::env::current_dir().unwrap();
+    std::env::set_current_dir(case["cwd"].as_str().unwrap()).unwrap();
+    let kind = case["kind"].as_str().unwrap().to_string();
+    let conf = case["conf"].as_str().unwrap_or("").to_string();
+    let r = std::panic::catch_unwind(std::panic::AssertUnwindSafe(|| -> Result<(), String> {
+        match kind.as_str() {
+            "build" => tauri_typegen::BuildSystem::generate_at_build_time().map_err(|e| e.to_string()),
+            _ => {
+                let config = GenerateConfig::from_tauri_config(&conf)
+                    .map_err(|e| format!("config: {e}"))?
+                    .ok_or_else(|| "no typegen section".to_string())?;
+                generate_from_config(&config).map(|_| ()).map_err(|e| e.to_string())
+            }
+        }
+    }));
+    std::env::set_current_dir(back).unwrap();
+    println!();
+    match r {
+        Err(_) => json!({"id": case["id"], "panic": "panic in route"}),
+        Ok(Err(e)) => json!({"id": case["id"], "error": e}),
+        Ok(Ok(())) => json!({"id": case["id"], "ok": true}),
+    }
+}
+
 fn main() {
-    tt_harness::dispatch(&[("names", names), ("real-serde", real_serde)]);
+    tt_harness::dispatch(&[("names", names), ("real-serde", real_serde), ("route", route)]);
 }
